@@ -13,7 +13,11 @@ Search (independent of the model): brute-force validation of real `plan_rechunk`
   (array.chunk-size, array.rechunk.threshold, array.rechunk.degree-limit; limits / thresholds passed as arguments
   or left to the configuration, every order incl. A,B,A): each plan is validated against the budget IN FORCE at
   that call and must equal the plan of the same call with every default passed explicitly (under decoy defaults).
-Failure signatures: budget:bound_degree, budget:planner, plan:invalid, plan:nontermination,
+  Fractional budgets: byte limits that are NOT a multiple of the itemsize (itemsizes 1,2,3,4,8,12,16; limits just below /
+  at / just above k*itemsize for every block size k an intermediate step can take), an exhaustive sweep over crossed
+  column-blocks -> row-blocks geometries plus seeded random geometries, validated in BYTES (exact rationals); and the same
+  through x.rechunk(new, threshold=, block_size_limit=) with every block of the executed graph measured (.nbytes).
+Failure signatures: budget:bound_degree, budget:planner, api:budget, api:values, api:chunks, api:raises, plan:invalid, plan:nontermination,
   plan:raises:zero-width, plan:raises, crosswalk:<what>, history:budget, history:differs-from-explicit,
   history:differs-from-fresh-process, history:invalid, history:raises, history:nontermination.
 """
@@ -481,6 +485,8 @@ def rand_history_case(rng, maxaxis):
     # limits spread around the sizes that matter for this pair: one element ... the whole array
     lims = sorted({1, itemsize, itemsize * max(1, largest(old)), itemsize * max(1, largest(new)), itemsize * max(1, nelem // 16),
                    itemsize * max(1, nelem // 4), itemsize * nelem, 2**27})
+    if itemsize > 1 and rng.random() < 0.5:  # byte limits that are not a whole number of elements
+        lims = sorted(set(lims) | {max(1, v + rng.choice([-1, 1, -(itemsize // 2), itemsize - 1])) for v in rng.sample(lims[1:-1], min(3, len(lims) - 2))})
     vary = rng.choice(["limit", "limit", "limit", "threshold", "degree", "all"])
     n = rng.choice([2, 3, 3, 4])
     base = {CFG_LIMIT: rng.choice(lims), CFG_THRESHOLD: rng.choice([1, 2, 4, 8]), CFG_DEGREE: rng.choice([2, 3, 10, 100])}
@@ -533,6 +539,170 @@ def history_search(ctx, R):
     compare_with_fresh(ctx, collect)
     ctx.notes["history_cases"] = n
     ctx.notes["history_cases_failing"] = bad
+
+
+# ------------------------------------------- fractional budgets (limit not a multiple of the itemsize)
+
+FR_ITEMSIZES = (2, 3, 4, 8, 12, 16)
+FR_DTYPES = {1: "i1", 2: "i2", 3: "V3", 4: "i4", 8: "f8", 12: [("a", "i4"), ("b", "f8")], 16: "c16"}
+
+
+def _near(itemsize, k):
+    """byte limits around k elements: just below, exactly, just above (none of the off ones a multiple of itemsize)"""
+    out = {itemsize * k}
+    if itemsize > 1:
+        out |= {itemsize * k - 1, itemsize * k - itemsize // 2, itemsize * k - (itemsize - 1), itemsize * k + 1, itemsize * k + itemsize - 1}
+    return sorted(v for v in out if v >= 1)
+
+
+def fraction_sweep():
+    """Crossed geometries (n x n, blocks of a columns -> blocks of b rows and back), every itemsize, every limit around
+    n*j elements (the sizes a merged intermediate block can take)."""
+    for n in (4, 6, 8, 12):
+        for a, b in itertools.product((1, 2, 3), repeat=2):
+            if n % a or n % b:
+                continue
+            cols, rows = [[n], [a] * (n // a)], [[b] * (n // b), [n]]
+            for old, new in ((cols, rows), (rows, cols)):
+                for itemsize in FR_ITEMSIZES:
+                    for j in range(1, n):
+                        for lim in _near(itemsize, n * j):
+                            if lim % itemsize:
+                                yield {"kind": "plan", "old": old, "new": new, "itemsize": itemsize, "threshold": 1, "limit": lim,
+                                       "degree_limit": 10**6}
+
+
+def rand_fraction_case(rng, maxaxis):
+    if rng.random() < 0.4:
+        old, new = _crossed(rng)
+        if rng.random() < 0.5:  # keep the crossed ones small enough for many limits to matter
+            n = rng.choice([4, 5, 6, 7, 9, 10])
+            k = rng.choice([1, 1, 2, 3])
+            row = list(_uniform(n, k))
+            old, new = ([row, [n]], [[n], row]) if rng.random() < 0.5 else ([[n], row], [row, [n]])
+    else:
+        c = rand_case(rng, maxaxis)
+        while len(c["old"]) < 2:
+            c = rand_case(rng, maxaxis)
+        old, new = c["old"], c["new"]
+    itemsize = rng.choice(FR_ITEMSIZES)
+    # candidate element counts: products of merged widths per axis, between the largest old/new block and the whole array
+    widths = []
+    for o, nw in zip(old, new):
+        cs = set(itertools.accumulate(o)) | set(itertools.accumulate(nw)) | {max(o), max(nw)}
+        widths.append(sorted(v for v in cs if v > 0) or [1])
+    k = math.prod(rng.choice(w) for w in widths)
+    if rng.random() < 0.25:
+        k = rng.randint(1, max(1, math.prod(sum(o) for o in old)))
+    lim = rng.choice(_near(itemsize, max(1, k)))
+    return {"kind": "plan", "old": old, "new": new, "itemsize": itemsize, "threshold": rng.choice([1, 1, 1, 2, 4, 16]), "limit": lim,
+            "degree_limit": rng.choice([2, 3, 10, 100, 10**6, 10**6])}
+
+
+def _blocks_of(graph_values):
+    return [v for v in graph_values if hasattr(v, "nbytes") and hasattr(v, "shape") and hasattr(v, "dtype")]
+
+
+def check_api_case(ctx, case):
+    """x.rechunk(new, threshold=, block_size_limit=limit bytes) on a real array of the case's itemsize: the whole graph is
+    executed and EVERY array it holds is measured in bytes (oracle: .nbytes, no planner code involved)."""
+    import numpy as np
+
+    import dask
+    import dask_array as da
+
+    old = tuple(tuple(c) for c in case["old"])
+    new = tuple(tuple(c) for c in case["new"])
+    shape = tuple(sum(c) for c in old)
+    itemsize = case["itemsize"]
+    dt = np.dtype(FR_DTYPES[itemsize])
+    assert dt.itemsize == itemsize
+    nelem = math.prod(shape)
+    a = (np.arange(nelem * itemsize, dtype="i8") * 37 % 251).astype("u1").view(dt).reshape(shape)
+    raw = lambda v: np.ascontiguousarray(v).view("u1")
+    try:
+        with dask.config.set({CFG_DEGREE: case["degree_limit"]}):
+            # map_blocks keeps the rechunk from being absorbed into the from_array read
+            x = da.from_array(a, chunks=old).map_blocks(_ident, dtype=dt, meta=np.empty((0,) * len(shape), dtype=dt))
+            y = x.rechunk(new, threshold=case["threshold"], block_size_limit=case["limit"])
+            chunks = tuple(tuple(c) for c in y.chunks)
+            graph = dict(y.__dask_graph__())
+            keys = list(graph)
+            values = dask.get(graph, keys)
+            got = y.compute(scheduler="sync")
+    except EXC + (NotImplementedError,) as e:
+        if dt.kind == "V":  # void / structured blocks: a refusal is not wrong data
+            ctx.notes["api_refused_nonnumeric_dtype"] = ctx.notes.get("api_refused_nonnumeric_dtype", 0) + 1
+            ctx.notes.setdefault("api_refused_example", repr(e)[:160])
+            return True
+        ctx.fail("api:raises", dict(case, error=repr(e)), "x.rechunk(new, threshold=, block_size_limit=) raises on chunkings of the same shape")
+        return False
+    blocks = [v for k, v in zip(keys, values) if isinstance(k, tuple) and len(k) == len(shape) + 1 and isinstance(v, np.ndarray)]
+    biggest = max((v.nbytes for v in blocks), default=0)
+    budget = max(case["limit"], largest(old) * itemsize, largest(new) * itemsize)
+    ctx.count(("api", len(shape), itemsize, case["limit"] % itemsize != 0, biggest > largest(old) * itemsize and biggest > largest(new) * itemsize,
+               len({k[0] for k in keys if isinstance(k, tuple)}) > 3))
+    if chunks != new:
+        ctx.fail("api:chunks", dict(case, got=chunks), "x.rechunk(new, ...).chunks is not the requested chunking")
+        return False
+    if biggest > budget:
+        worst = max(blocks, key=lambda v: v.nbytes)
+        ctx.fail("api:budget", dict(case, block_bytes=int(biggest), block_shape=list(worst.shape), budget_bytes=int(budget)),
+                 "executing x.rechunk(new, block_size_limit=) materialises a block of more bytes than max(block_size_limit, largest "
+                 "old block, largest new block)")
+        return False
+    if np.asarray(got).shape != shape or not np.array_equal(raw(np.asarray(got)), raw(a)):
+        ctx.fail("api:values", dict(case), "x.rechunk(new, block_size_limit=) changes the values")
+        return False
+    return True
+
+
+def _ident(b):
+    return b
+
+
+def fraction_search(ctx, R):
+    rng = ctx.rng
+    pairs = []
+    n = bad = 0
+    multi = []
+    failing = []
+    sweep = list(fraction_sweep())  # exhaustive in both tiers (about 9.5k plans, < 2 s)
+    for case in sweep:
+        if bad >= 40:
+            break  # the class is reported with 40 concrete inputs already
+        n += 1
+        ok = check_plan_case(ctx, R, case, pairs if n % 13 == 0 else None)
+        bad += not ok
+        (failing if not ok else multi).append(case)
+    for i in range(ctx.scale(2500, 40000)):
+        case = rand_fraction_case(rng, rng.choice([6, 12, 24]))
+        if bad >= 80:
+            break
+        n += 1
+        ok = check_plan_case(ctx, R, case, pairs if i % 3 == 0 else None)
+        bad += not ok
+        (failing if not ok else multi).append(case)
+        if i % 800 == 0:
+            ctx.sample({"case": case})
+    ctx.notes["fractional_budget_plans"] = n
+    ctx.notes["fractional_budget_plans_failing"] = bad
+    ctx.correspond("plan_rechunk(recorded oracles, fractional budgets)", pairs,
+                   branch_key=lambda req, model: (req.count("/"), req.split()[-1] == "~", model.count("|")))
+    # the same through the public API, every materialised block measured; small arrays only; the inputs whose plan
+    # already broke the budget come first (lifting them to the API level)
+    api = failing[:6]
+    small = [c for c in multi if math.prod(sum(o) for o in c["old"]) <= 200 and max(len(o) for o in c["old"] + c["new"]) <= 12]
+    rng.shuffle(small)
+    api += small[: ctx.scale(140, 2500)]
+    m = mbad = 0
+    for case in api:
+        if mbad >= 12:
+            break
+        m += 1
+        mbad += not check_api_case(ctx, dict(case, kind="api-rechunk"))
+    ctx.notes["fractional_budget_api_runs"] = m
+    ctx.notes["fractional_budget_api_failing"] = mbad
 
 
 KNOWN_BOUND_DEGREE = {
@@ -726,6 +896,8 @@ def replay_case(ctx, R, rp):
             check_plan_case(ctx, R, {k: case[k] for k in ("kind", "old", "new", "itemsize", "threshold", "limit", "degree_limit")}, pairs)
             if pairs:
                 ctx.correspond("plan_rechunk(recorded oracles)", pairs)
+        elif kind == "api-rechunk":
+            check_api_case(ctx, {k: case[k] for k in ("kind", "old", "new", "itemsize", "threshold", "limit", "degree_limit")})
         elif kind == "plan-history":
             collect = []
             check_history_case(ctx, R, {k: case[k] for k in ("kind", "old", "new", "itemsize", "steps", "vary") if k in case}, collect)
@@ -770,7 +942,12 @@ def run(ctx, replay=None):
         "(family, model output prefix, size class) for correspondence, (rank, plan length, #planner passes, "
         "#degree subdivisions, budget outcome, zero-width) for plans, (shape of crosswalk) for the brute-force contract; "
         "call histories: the same (old, new, itemsize) under 2-5 configurations in one process (what varies, arguments vs "
-        "configured defaults, #distinct plans)"
+        "configured defaults, #distinct plans); fractional budgets: crossed n x n geometries (n = 4, 6, 8, 12; widths 1-3; both "
+        "directions) x itemsize (2, 3, 4, 8, 12, 16) x byte limits just below / above n*j elements that are NOT a multiple of the "
+        "itemsize (all of them in every run) + seeded random geometries with limits around products of merged "
+        "widths; the same inputs through x.rechunk(new, threshold=, block_size_limit=) on arrays of that itemsize (int, void, "
+        "structured, complex dtypes), whole graph executed, every block measured in bytes; distinct = (rank, itemsize, "
+        "limit % itemsize != 0, a block larger than both endpoints, multi-stage graph)"
     )
     ctx.assumptions += [
         "float-derived planner choices (sort order, chunk_limit, max_number, nsteps, count) are recorded from the real run "
@@ -792,11 +969,14 @@ def run(ctx, replay=None):
     ctx.exhaustive = True
     ctx.extra["exhaustive_domain"] = (
         f"old_to_new: all pairs of chunkings of n ≤ {ctx.scale(4, 5)} (zero-width chunks, ≤ {ctx.scale(3, 4)} parts, plus all "
-        f"positive chunkings); divide_to_width / merge_to_number: all chunkings of n ≤ {ctx.scale(4, 5) + 2} × all widths / counts"
+        f"positive chunkings); divide_to_width / merge_to_number: all chunkings of n ≤ {ctx.scale(4, 5) + 2} × all widths / counts; "
+        "fractional budgets: crossed n x n plans, n in (4, 6, 8, 12), widths 1-3, both directions, itemsize in (2, 3, 4, 8, 12, 16), "
+        "every byte limit within one itemsize of n*j elements (j < n) that is not a multiple of the itemsize"
     )
     known_probes(ctx, R)
     helper_pairs(ctx, R)
     plan_search(ctx, R)
+    fraction_search(ctx, R)
     history_search(ctx, R)
     if ctx.disagreements:
         targeted(ctx, R)
